@@ -197,19 +197,6 @@ Proof.
   unfold argsort. rewrite isort_perm. rewrite combine_map_snd' by (rewrite seq_length; reflexivity). reflexivity.
 Qed.
 
-Lemma argsort_length ks : length (argsort ks) = length ks.
-Proof. rewrite (Permutation_length (argsort_perm ks)). apply seq_length. Qed.
-
-Lemma argsort_In ks i : In i (argsort ks) <-> (i < length ks)%nat.
-Proof.
-  split; intros H.
-  - apply (Permutation_in _ (argsort_perm ks)) in H. apply in_seq in H. lia.
-  - apply (Permutation_in _ (Permutation_sym (argsort_perm ks))). apply in_seq. lia.
-Qed.
-
-Lemma argsort_NoDup ks : NoDup (argsort ks).
-Proof. eapply Permutation_NoDup; [apply Permutation_sym, argsort_perm|apply seq_NoDup]. Qed.
-
 Lemma combine_seq_In (ks : list Z) s k i : In (k, i) (combine ks (seq s (length ks))) -> nthZ ks (i - s) = k.
 Proof.
   revert s. induction ks as [|x ks IH]; intros s H; simpl in H; [tauto|].
@@ -234,13 +221,44 @@ Proof.
   rewrite Forall_forall in Hall. specialize (Hall y Hy). unfold key_leb in Hall. apply Z.leb_le. exact Hall.
 Qed.
 
-(* joining two key lists through argsort + _match_arrays: all pairs of ORIGINAL positions with equal keys *)
-Definition joined (k1 k2 : list Z) : list (nat * nat) :=
-  map (fun ij => (nth (fst ij) (argsort k1) O, nth (snd ij) (argsort k2) O))
-      (match_arrays (map (nthZ k1) (argsort k1)) (map (nthZ k2) (argsort k2))).
 
-Lemma nth_argsort_In ks i' : (i' < length ks)%nat -> (nth i' (argsort ks) O < length ks)%nat.
-Proof. intros H. apply argsort_In. apply nth_In. rewrite argsort_length. exact H. Qed.
+(* np.argsort's default kind is not stable: the order of equal keys is unspecified.  Everything below
+   holds for ANY function that returns a sorting permutation of the positions. *)
+Definition is_argsort (srt : list Z -> list nat) : Prop :=
+  forall ks, Permutation (srt ks) (seq 0 (length ks)) /\ StronglySorted Z.le (map (nthZ ks) (srt ks)).
+
+Lemma argsort_is_argsort : is_argsort argsort.
+Proof. intros ks. split; [apply argsort_perm|apply argsort_sorted]. Qed.
+
+Section AnySort.
+  Variable srt : list Z -> list nat.
+  Hypothesis srt_ok : is_argsort srt.
+
+Lemma srt_perm ks : Permutation (srt ks) (seq 0 (length ks)).
+Proof. apply srt_ok. Qed.
+Lemma srt_sorted ks : StronglySorted Z.le (map (nthZ ks) (srt ks)).
+Proof. apply srt_ok. Qed.
+
+Lemma srt_length ks : length (srt ks) = length ks.
+Proof. rewrite (Permutation_length (srt_perm ks)). apply seq_length. Qed.
+
+Lemma srt_In ks i : In i (srt ks) <-> (i < length ks)%nat.
+Proof.
+  split; intros H.
+  - apply (Permutation_in _ (srt_perm ks)) in H. apply in_seq in H. lia.
+  - apply (Permutation_in _ (Permutation_sym (srt_perm ks))). apply in_seq. lia.
+Qed.
+
+Lemma srt_NoDup ks : NoDup (srt ks).
+Proof. eapply Permutation_NoDup; [apply Permutation_sym, srt_perm|apply seq_NoDup]. Qed.
+
+(* joining two key lists through srt + _match_arrays: all pairs of ORIGINAL positions with equal keys *)
+Definition joined (k1 k2 : list Z) : list (nat * nat) :=
+  map (fun ij => (nth (fst ij) (srt k1) O, nth (snd ij) (srt k2) O))
+      (match_arrays (map (nthZ k1) (srt k1)) (map (nthZ k2) (srt k2))).
+
+Lemma nth_srt_In ks i' : (i' < length ks)%nat -> (nth i' (srt ks) O < length ks)%nat.
+Proof. intros H. apply srt_In. apply nth_In. rewrite srt_length. exact H. Qed.
 
 Lemma nthZ_map_nth ks (a : list nat) i' :
   (i' < length a)%nat -> nthZ (map (nthZ ks) a) i' = nthZ ks (nth i' a O).
@@ -253,32 +271,34 @@ Lemma joined_spec k1 k2 :
   NoDup (joined k1 k2) /\
   forall i j, In (i, j) (joined k1 k2) <-> (i < length k1)%nat /\ (j < length k2)%nat /\ nthZ k1 i = nthZ k2 j.
 Proof.
-  unfold joined. rewrite match_arrays_spec_proof by apply argsort_sorted.
-  set (a1 := argsort k1). set (a2 := argsort k2).
+  unfold joined. rewrite match_arrays_spec_proof by apply srt_sorted.
+  set (a1 := srt k1). set (a2 := srt k2).
   assert (Hm : forall i' j', In (i', j') (match_spec (map (nthZ k1) a1) (map (nthZ k2) a2)) <->
                              (i' < length k1)%nat /\ (j' < length k2)%nat /\
                              nthZ k1 (nth i' a1 O) = nthZ k2 (nth j' a2 O)).
-  { intros i' j'. rewrite match_spec_In, !map_length. unfold a1, a2. rewrite !argsort_length.
+  { intros i' j'. rewrite match_spec_In, !map_length. unfold a1, a2. rewrite !srt_length.
     split; intros [H1 [H2 H3]]; repeat split; auto.
-    - rewrite !nthZ_map_nth in H3 by (rewrite argsort_length; assumption). exact H3.
-    - rewrite !nthZ_map_nth by (rewrite argsort_length; assumption). exact H3. }
+    - rewrite !nthZ_map_nth in H3 by (rewrite srt_length; assumption). exact H3.
+    - rewrite !nthZ_map_nth by (rewrite srt_length; assumption). exact H3. }
   split.
   - apply NoDup_map_in; [|apply match_spec_NoDup].
     intros [i' j'] [i'' j''] Hx Hy E. apply Hm in Hx. apply Hm in Hy. simpl in E. inversion E as [[E1 E2]].
     destruct Hx as [X1 [X2 _]]. destruct Hy as [Y1 [Y2 _]].
     f_equal.
-    + apply (proj1 (NoDup_nth a1 O) (argsort_NoDup k1)); auto; unfold a1; rewrite argsort_length; assumption.
-    + apply (proj1 (NoDup_nth a2 O) (argsort_NoDup k2)); auto; unfold a2; rewrite argsort_length; assumption.
+    + apply (proj1 (NoDup_nth a1 O) (srt_NoDup k1)); auto; unfold a1; rewrite srt_length; assumption.
+    + apply (proj1 (NoDup_nth a2 O) (srt_NoDup k2)); auto; unfold a2; rewrite srt_length; assumption.
   - intros i j. rewrite in_map_iff. split.
     + intros [[i' j'] [E H]]. apply Hm in H. simpl in E. inversion E; subst i j. destruct H as [H1 [H2 H3]].
-      repeat split; auto; apply nth_argsort_In; assumption.
+      repeat split; auto; apply nth_srt_In; assumption.
     + intros [H1 [H2 H3]].
-      assert (I1 : In i a1) by (apply argsort_In; exact H1). assert (I2 : In j a2) by (apply argsort_In; exact H2).
+      assert (I1 : In i a1) by (apply srt_In; exact H1). assert (I2 : In j a2) by (apply srt_In; exact H2).
       apply (In_nth _ _ O) in I1. apply (In_nth _ _ O) in I2.
       destruct I1 as [i' [Hi' Ei]]. destruct I2 as [j' [Hj' Ej]].
-      unfold a1 in Hi'. unfold a2 in Hj'. rewrite argsort_length in Hi', Hj'.
+      unfold a1 in Hi'. unfold a2 in Hj'. rewrite srt_length in Hi', Hj'.
       exists (i', j'). simpl. split; [congruence|]. apply Hm. repeat split; auto. congruence.
 Qed.
+
+End AnySort.
 
 (* ------------------------------------------------------------------ more on broadcast shapes *)
 
@@ -329,11 +349,11 @@ Proof.
   intros H. unfold nthZ. rewrite (nth_indep _ 0 (g d)) by (rewrite map_length; exact H). apply map_nth.
 Qed.
 
-Lemma match_pairs_spec sh1 c1 sh2 c2 cur :
+Lemma match_pairs_spec srt (srt_ok : is_argsort srt) sh1 c1 sh2 c2 cur :
   broadcast_shape2 false sh1 sh2 = Ok cur ->
   Forall (in_range sh1) c1 -> Forall (in_range sh2) c2 ->
   exists pairs,
-    match_pairs sh1 c1 sh2 c2 = Ok (cur, bcast_params sh1 cur, bcast_params sh2 cur, pairs) /\
+    match_pairs srt sh1 c1 sh2 c2 = Ok (cur, bcast_params sh1 cur, bcast_params sh2 cur, pairs) /\
     NoDup pairs /\
     forall i j, In (i, j) pairs <->
                 (i < length c1)%nat /\ (j < length c2)%nat /\
@@ -345,7 +365,7 @@ Proof.
   set (rsh := select (msk2 sh1 sh2 cur) sh2).
   set (k1 := map (fun t => ravel rsh (select (msk1 sh1 sh2 cur) t)) c1).
   set (k2 := map (fun t => ravel rsh (select (msk2 sh1 sh2 cur) t)) c2).
-  exists (joined k1 k2). split; [reflexivity|]. destruct (joined_spec k1 k2) as [Hnd Hin]. split; [exact Hnd|].
+  exists (joined srt k1 k2). split; [reflexivity|]. destruct (joined_spec srt srt_ok k1 k2) as [Hnd Hin]. split; [exact Hnd|].
   intros i j. rewrite Hin. unfold k1, k2. rewrite !map_length.
   rewrite Forall_forall in R1, R2.
   split; intros [H1 [H2 H3]]; repeat split; auto.
@@ -371,6 +391,8 @@ Section General.
   Variable V : Type.
   Variable veqb : V -> V -> bool.
   Variable vzero : V.
+  Variable srt : list Z -> list nat.
+  Hypothesis srt_ok : is_argsort srt.
   Variable f : list V -> V.
   Hypothesis veqb_eq : forall a b, veqb a b = true <-> a = b.
 
@@ -399,7 +421,7 @@ Section General.
   Lemma match_step_spec ms B rows (a2 : coo V) cur :
     rows_spec ms B rows -> canonical V a2 -> Forall (fun c => BT (c_shape c) B) ms ->
     broadcast_shape2 false B (c_shape a2) = Ok cur ->
-    exists rows', match_step V vzero (B, rows) a2 = Ok (cur, rows') /\ rows_spec (ms ++ [a2]) cur rows'.
+    exists rows', match_step V vzero srt (B, rows) a2 = Ok (cur, rows') /\ rows_spec (ms ++ [a2]) cur rows'.
   Proof.
     intros [Hnd Hrows] Ha2 Hms Hb. pose proof (broadcast_shape2_BT2 _ _ _ Hb) as HB.
     pose proof (BT2_left_BT _ _ _ HB) as HB1. pose proof (BT2_right_BT _ _ _ HB) as HB2.
@@ -407,7 +429,7 @@ Section General.
     assert (R1 : Forall (in_range B) (map fst rows)).
     { apply Forall_forall. intros q Hq. apply in_map_iff in Hq. destruct Hq as [[q' vs] [<- Hin]].
       apply Hrows in Hin. tauto. }
-    destruct (match_pairs_spec B (map fst rows) (c_shape a2) (c_coords a2) cur Hb R1 R2) as [pairs [Hmp [Pnd Pin]]].
+    destruct (match_pairs_spec srt srt_ok B (map fst rows) (c_shape a2) (c_coords a2) cur Hb R1 R2) as [pairs [Hmp [Pnd Pin]]].
     unfold match_step. rewrite Hmp. cbn [bind]. unfold idx in *.
     set (g := fun ij : nat * nat =>
                 let r1 := nth (fst ij) rows ([], []) in
@@ -528,7 +550,7 @@ Section General.
     rows_spec ms B rows -> Forall (fun c => BT (c_shape c) B) ms -> BT B T ->
     Forall (canonical V) rest -> Forall (fun c => BT (c_shape c) T) rest ->
     exists B' rows',
-      fold_left (fun acc a2 => m <- acc ;; match_step V vzero m a2) rest (Ok (B, rows)) = Ok (B', rows') /\
+      fold_left (fun acc a2 => m <- acc ;; match_step V vzero srt m a2) rest (Ok (B, rows)) = Ok (B', rows') /\
       rows_spec (ms ++ rest) B' rows' /\ Forall (fun c => BT (c_shape c) B') (ms ++ rest) /\ BT B' T.
   Proof.
     induction rest as [|a2 rest IH]; intros ms B rows Hrows Hms HB Hcan HT.
@@ -547,7 +569,7 @@ Section General.
 
   Theorem match_coo_spec (ms : list (coo V)) T :
     ms <> [] -> Forall (canonical V) ms -> Forall (fun c => BT (c_shape c) T) ms -> shape_ok T ->
-    exists rows, match_coo V vzero ms T = Ok rows /\ rows_spec ms T rows.
+    exists rows, match_coo V vzero srt ms T = Ok rows /\ rows_spec ms T rows.
   Proof.
     intros Hne Hcan HT Hok. destruct ms as [|a1 rest]; [congruence|].
     inversion Hcan as [|? ? Ha1 Hcan']; subst. inversion HT as [|? ? HT1 HT']; subst.
@@ -564,11 +586,11 @@ Section General.
   (* _match_coo(func_array, arg, return_midx=True)[0] *)
   Theorem match_coo_midx_spec sh (coords : list idx) (arg : coo V) :
     Forall (in_range sh) coords -> canonical V arg -> BT (c_shape arg) sh ->
-    exists l, match_coo_midx V sh coords arg = Ok l /\
+    exists l, match_coo_midx V srt sh coords arg = Ok l /\
               forall n, In n l <-> (n < length coords)%nat /\ stored arg (nth n coords []).
   Proof.
     intros Rc Ha HB. pose proof Ha as [Ra [Sa La]]. pose proof (bc_into _ _ HB) as Hb.
-    destruct (match_pairs_spec sh coords (c_shape arg) (c_coords arg) sh Hb Rc Ra) as [pairs [Hmp [Pnd Pin]]].
+    destruct (match_pairs_spec srt srt_ok sh coords (c_shape arg) (c_coords arg) sh Hb Rc Ra) as [pairs [Hmp [Pnd Pin]]].
     unfold match_coo_midx. rewrite Hmp. cbn [bind]. eexists. split; [reflexivity|].
     pose proof (broadcast_shape2_BT2 _ _ _ Hb) as HB2.
     intros n. rewrite in_map_iff. rewrite Forall_forall in Rc, Ra. unfold idx, stored in *. split.
@@ -636,6 +658,8 @@ Section Pieces.
   Variable V : Type.
   Variable veqb : V -> V -> bool.
   Variable vzero : V.
+  Variable srt : list Z -> list nat.
+  Hypothesis srt_ok : is_argsort srt.
   Variable f : list V -> V.
   Hypothesis veqb_eq : forall a b, veqb a b = true <-> a = b.
 
@@ -725,7 +749,7 @@ Section Pieces.
   Lemma drop_unmatched_spec sh (es : list (idx * V)) (unm : list (coo V)) :
     Forall (fun e => in_range sh (fst e)) es ->
     Forall (fun c => canonical V c /\ BT (c_shape c) sh) unm ->
-    exists bad, mapM (fun arg => match_coo_midx V sh (map fst es) arg) unm = Ok bad /\
+    exists bad, mapM (fun arg => match_coo_midx V srt sh (map fst es) arg) unm = Ok bad /\
       forall q v, In (q, v) (filter_pos (fun n => negb (existsb (Nat.eqb n) (concat bad))) O es) <->
                   In (q, v) es /\ forall c, In c unm -> ~ stored c q.
   Proof.
@@ -735,28 +759,28 @@ Section Pieces.
       rewrite Forall_forall in Hr. auto. }
     rewrite Forall_forall in Hun.
     rewrite (mapM_Ok _ []).
-    2:{ intros c Hc. destruct (Hun c Hc) as [H1 H2]. destruct (match_coo_midx_spec V sh (map fst es) c Rc H1 H2) as [l [E _]].
+    2:{ intros c Hc. destruct (Hun c Hc) as [H1 H2]. destruct (match_coo_midx_spec V srt srt_ok sh (map fst es) c Rc H1 H2) as [l [E _]].
         eauto. }
     eexists. split; [reflexivity|].
-    assert (Hbad : forall n, In n (concat (map (fun x => match match_coo_midx V sh (map fst es) x with
+    assert (Hbad : forall n, In n (concat (map (fun x => match match_coo_midx V srt sh (map fst es) x with
                                                           | Ok y => y | Raise _ => [] end) unm)) <->
                              (n < length es)%nat /\ exists c, In c unm /\ stored c (nth n (map fst es) [])).
     { intros n. rewrite in_concat. split.
       - intros [l [Hl Hn]]. apply in_map_iff in Hl. destruct Hl as [c [<- Hc]].
-        destruct (Hun c Hc) as [H1 H2]. destruct (match_coo_midx_spec V sh (map fst es) c Rc H1 H2) as [l [E Hl]].
+        destruct (Hun c Hc) as [H1 H2]. destruct (match_coo_midx_spec V srt srt_ok sh (map fst es) c Rc H1 H2) as [l [E Hl]].
         rewrite E in Hn. apply Hl in Hn. rewrite map_length in Hn. destruct Hn. eauto.
       - intros [Hn [c [Hc Hs]]]. destruct (Hun c Hc) as [H1 H2].
-        destruct (match_coo_midx_spec V sh (map fst es) c Rc H1 H2) as [l [E Hl]].
+        destruct (match_coo_midx_spec V srt srt_ok sh (map fst es) c Rc H1 H2) as [l [E Hl]].
         exists l. split; [apply in_map_iff; exists c; rewrite E; auto|]. apply Hl. rewrite map_length. auto. }
     intros q v. rewrite filter_pos_In. simpl. split.
     - intros [n [Hn Hk]]. split; [eapply nth_error_In; eauto|]. intros c Hc Hs.
       apply negb_true_iff in Hk. assert (Hn' : (n < length es)%nat) by (apply nth_error_Some; congruence).
-      assert (Hin : In n (concat (map (fun x => match match_coo_midx V sh (map fst es) x with
+      assert (Hin : In n (concat (map (fun x => match match_coo_midx V srt sh (map fst es) x with
                                                  | Ok y => y | Raise _ => [] end) unm))).
       { apply Hbad. split; [exact Hn'|]. exists c. split; [exact Hc|].
         change (@nil Z) with (fst (@nil Z, v)). rewrite map_nth.
         apply nth_error_nth with (d := ([], v)) in Hn. rewrite Hn. exact Hs. }
-      assert (existsb (Nat.eqb n) (concat (map (fun x => match match_coo_midx V sh (map fst es) x with
+      assert (existsb (Nat.eqb n) (concat (map (fun x => match match_coo_midx V srt sh (map fst es) x with
                                                  | Ok y => y | Raise _ => [] end) unm)) = true); [|congruence].
       apply existsb_exists. exists n. split; [exact Hin|apply Nat.eqb_refl].
     - intros [Hin Hno]. apply In_nth_error in Hin. destruct Hin as [n Hn]. exists n. split; [exact Hn|].
@@ -834,7 +858,7 @@ Section Pieces.
   Theorem piece_spec args sh fill m :
     Forall op_ok args -> np_broadcast_rel (map (op_shape V) args) sh -> shape_ok sh ->
     In m (masks V args) -> existsb is_true m = true ->
-    exists o, func_coords_data V veqb vzero f args sh fill m = Ok o /\
+    exists o, func_coords_data V veqb vzero f srt args sh fill m = Ok o /\
       NoDup (map fst (piece_of o)) /\
       forall q v, In (q, v) (piece_of o) <->
         in_range sh q /\ (forall c, In c (sparse_of V args m true) -> stored c q) /\
@@ -863,7 +887,7 @@ Section Pieces.
     assert (Hne : matched <> []) by (apply masks_any_true; assumption).
     assert (Hmcan : Forall (canonical V) matched).
     { apply Forall_forall. intros c Hc. apply (Hcanon true c Hc). }
-    destruct (match_coo_spec V vzero f matched mbs Hne Hmcan Hmatched_BT Hmok) as [rows [Erows [Rnd Rin]]].
+    destruct (match_coo_spec V vzero srt srt_ok f matched mbs Hne Hmcan Hmatched_BT Hmok) as [rows [Erows [Rnd Rin]]].
     unfold func_coords_data. fold matched unm. fold (nd_shapes args). fold L. rewrite Hnary. cbn [bind].
     rewrite Erows. cbn [bind].
     set (kept := filter (fun e : idx * V => negb (veqb (snd e) fill))
@@ -929,7 +953,7 @@ Section Pieces.
       change (match kept with [] => Ok None | _ :: _ => _ end) with
         (if forallb (fun mi : option bool => match mi with Some false => false | _ => true end) m
          then Ok (Some es)
-         else bad <- mapM (fun arg => match_coo_midx V sh (map fst es) arg) unm ;;
+         else bad <- mapM (fun arg => match_coo_midx V srt sh (map fst es) arg) unm ;;
               Ok (Some (filter_pos (fun n => negb (existsb (Nat.eqb n) (concat bad))) O es))).
       destruct (forallb _ m) eqn:Hfb.
       + exists (Some es). split; [reflexivity|]. simpl. split; [exact End|].
@@ -963,6 +987,8 @@ Section Final.
   Variable V : Type.
   Variable veqb : V -> V -> bool.
   Variable vzero : V.
+  Variable srt : list Z -> list nat.
+  Hypothesis srt_ok : is_argsort srt.
   Variable f : list V -> V.
   Hypothesis veqb_eq : forall a b, veqb a b = true <-> a = b.
 
@@ -1106,7 +1132,7 @@ Section Final.
     np_broadcast_rel (nd_shapes V args) nd -> BT nd sh ->
     (forall q0, in_range nd q0 -> fill_at V vzero f args q0 = fill) ->
     exists pieces,
-      mapM (func_coords_data V veqb vzero f args sh fill) (filter (existsb is_true) (masks V args)) = Ok pieces /\
+      mapM (func_coords_data V veqb vzero f srt args sh fill) (filter (existsb is_true) (masks V args)) = Ok pieces /\
       let es := concat (map (fun o => match o with Some l => l | None => [] end) pieces) in
       exists r, result_ctor V sh es fill = Some r /\
         c_shape r = sh /\ c_fill r = fill /\ canonical V r /\ prunedb veqb r = true /\
@@ -1116,7 +1142,7 @@ Section Final.
     set (ml := filter (existsb is_true) (masks V args)).
     assert (Hml : forall m, In m ml <-> In m (masks V args) /\ existsb is_true m = true)
       by (intros m; unfold ml; apply filter_In).
-    set (P := fun m => piece_of V (match func_coords_data V veqb vzero f args sh fill m with Ok o => o | Raise _ => None end)).
+    set (P := fun m => piece_of V (match func_coords_data V veqb vzero f srt args sh fill m with Ok o => o | Raise _ => None end)).
     assert (HP : forall m, In m ml ->
                NoDup (map fst (P m)) /\
                forall q v, In (q, v) (P m) <->
@@ -1124,13 +1150,13 @@ Section Final.
                  (forall c, In c (sparse_of V args m false) -> ~ stored c q) /\
                  v = F args q /\ veqb v fill = false).
     { intros m Hm. apply Hml in Hm. destruct Hm as [Hm Hany].
-      destruct (piece_spec V veqb vzero f args sh fill m Hok Hrel Hshok Hm Hany) as [o [E [Hnd Hin]]].
+      destruct (piece_spec V veqb vzero srt srt_ok f args sh fill m Hok Hrel Hshok Hm Hany) as [o [E [Hnd Hin]]].
       unfold P. rewrite E. auto. }
     rewrite (mapM_Ok _ None).
     2:{ intros m Hm. apply Hml in Hm. destruct Hm as [Hm Hany].
-        destruct (piece_spec V veqb vzero f args sh fill m Hok Hrel Hshok Hm Hany) as [o [E _]]. eauto. }
+        destruct (piece_spec V veqb vzero srt srt_ok f args sh fill m Hok Hrel Hshok Hm Hany) as [o [E _]]. eauto. }
     eexists. split; [reflexivity|]. cbv zeta. rewrite map_map. fold (piece_of V). 
-    change (map (fun x => piece_of V (match func_coords_data V veqb vzero f args sh fill x with Ok y => y | Raise _ => None end)) ml)
+    change (map (fun x => piece_of V (match func_coords_data V veqb vzero f srt args sh fill x with Ok y => y | Raise _ => None end)) ml)
       with (map P ml).
     set (es := concat (map P ml)).
     assert (Ein : forall q v, In (q, v) es <-> exists m, In m ml /\ In (q, v) (P m)).
@@ -1208,7 +1234,7 @@ Section Final.
 
   Theorem elemwise_den_proof (args0 : list (operand V)) :
     Forall (op_ok V) args0 -> existsb (is_sparse V) args0 = true ->
-    elemwise_post args0 (elemwise V veqb vzero f args0).
+    elemwise_post args0 (elemwise V veqb vzero f srt args0).
   Proof.
     intros Hok0 Hsp. unfold elemwise. rewrite Hsp. cbn [negb]. set (args := map (preprocess V) args0).
     assert (Hshapes : map (op_shape V) args = map (op_shape V) args0).
@@ -1255,6 +1281,8 @@ Section Programs.
   Variable V : Type.
   Variable veqb : V -> V -> bool.
   Variable vzero : V.
+  Variable srt : list Z -> list nat.
+  Hypothesis srt_ok : is_argsort srt.
   Hypothesis veqb_eq : forall a b, veqb a b = true <-> a = b.
 
   (* expression trees over sparse arrays and scalars; every node carries its own function *)
@@ -1271,7 +1299,7 @@ Section Programs.
      arithmetic otherwise; ValueError / dense results abort the program *)
   Definition apply_op (g : list V -> V) (args : list (operand V)) : option (operand V) :=
     if existsb (is_sparse V) args then
-      match elemwise V veqb vzero g args with
+      match elemwise V veqb vzero g srt args with
       | OutSparse r => Some (OSp r)
       | _ => None
       end
@@ -1358,8 +1386,8 @@ Section Programs.
   Proof.
     intros Hok Hne Hrel. unfold apply_op. destruct (existsb (is_sparse V) args) eqn:Hsp.
     - assert (Hok' : Forall (op_ok V) args) by (eapply Forall_impl; [|exact Hok]; apply val_ok_op_ok).
-      pose proof (elemwise_den_proof V veqb vzero g veqb_eq args Hok' Hsp) as Hpost.
-      destruct (elemwise V veqb vzero g args) as [r|d|e]; unfold elemwise_post in Hpost.
+      pose proof (elemwise_den_proof V veqb vzero srt srt_ok g veqb_eq args Hok' Hsp) as Hpost.
+      destruct (elemwise V veqb vzero g srt args) as [r|d|e]; unfold elemwise_post in Hpost.
       + destruct Hpost as [sh' [nd [R1 [R2 [_ [P1 [_ [P3 [_ P5]]]]]]]]].
         assert (Esh : sh' = sh) by (eapply rel_unique; eauto). rewrite Esh in *. clear Esh.
         exists (OSp r). split; [reflexivity|]. split; [exact P1|]. split.
@@ -1436,16 +1464,16 @@ End Programs.
 (* ================================================================== the mask partition, stated on its own *)
 
 Theorem mask_partition_proof (V : Type) (veqb : V -> V -> bool) (vzero : V) (f : list V -> V)
-        (args : list (operand V)) (sh : shape) (fill : V) :
+        (srt : list Z -> list nat) (srt_ok : is_argsort srt) (args : list (operand V)) (sh : shape) (fill : V) :
   Forall (op_ok V) args -> np_broadcast_rel (map (op_shape V) args) sh -> shape_ok sh ->
   forall m, In m (masks V args) -> existsb is_true m = true ->
-  exists o, func_coords_data V veqb vzero f args sh fill m = Ok o /\
+  exists o, func_coords_data V veqb vzero f srt args sh fill m = Ok o /\
     NoDup (map fst (piece_of V o)) /\
     forall q v, In (q, v) (piece_of V o) <->
       (in_range sh q /\ m = mask_of V args q /\ v = F V vzero f args q /\ veqb v fill = false).
 Proof.
   intros Hok Hrel Hshok m Hm Hany.
-  destruct (piece_spec V veqb vzero f args sh fill m Hok Hrel Hshok Hm Hany) as [o [E [Hnd Hin]]].
+  destruct (piece_spec V veqb vzero srt srt_ok f args sh fill m Hok Hrel Hshok Hm Hany) as [o [E [Hnd Hin]]].
   exists o. split; [exact E|]. split; [exact Hnd|]. intros q v. rewrite Hin. split.
   - intros [Hq [H1 [H2 [Hv Hf]]]]. repeat split; auto. apply mask_unique; assumption.
   - intros [Hq [Em [Hv Hf]]]. subst m. repeat split; auto.
@@ -1469,7 +1497,7 @@ Qed.
 Example elemwise_den_nonvacuous :
   Forall (op_ok Z) [OSp ex_x; OSp ex_y; ODn (mkDense [] [2])] /\
   existsb (is_sparse Z) [OSp ex_x; OSp ex_y; ODn (mkDense [] [2])] = true /\
-  elemwise Z Z.eqb 0 ex_add [OSp ex_x; OSp ex_y; ODn (mkDense [] [2])] =
+  elemwise Z Z.eqb 0 ex_add argsort [OSp ex_x; OSp ex_y; ODn (mkDense [] [2])] =
   OutSparse (mkCOO [2; 3] [[0; 0]; [0; 2]; [1; 0]; [1; 1]; [1; 2]] [8; 10; 11; 6; 13] 3).
 Proof.
   split; [|split; reflexivity].
@@ -1486,7 +1514,7 @@ Example programs_nonvacuous :
   let e := EOp2 Z ex_add (EOp2 Z ex_mul (ELeaf Z ex_x) (EConst Z 2)) (ELeaf Z ex_y) in
   wf_expr Z e /\
   dense_eval Z e [2; 3] (fun q => ex_add [ex_mul [den ex_x (bcast_idx [3] (bcast_idx [3] q)); 2]; den ex_y (bcast_idx [2; 1] q)]) /\
-  eval Z Z.eqb 0 e = Some (OSp (mkCOO [2; 3] [[0; 0]; [0; 2]; [1; 0]; [1; 1]; [1; 2]] [11; 15; 14; 4; 18] 1)).
+  eval Z Z.eqb 0 argsort e = Some (OSp (mkCOO [2; 3] [[0; 0]; [0; 2]; [1; 0]; [1; 1]; [1; 2]] [11; 15; 14; 4; 18] 1)).
 Proof.
   cbv zeta. split; [|split; [|reflexivity]].
   - simpl. repeat split; try (apply canonicalb_spec; reflexivity); repeat constructor; lia.
@@ -1502,7 +1530,7 @@ Qed.
 Example mask_partition_nonvacuous :
   Forall (op_ok Z) [OSp ex_x; OSp ex_y] /\ np_broadcast_rel (map (op_shape Z) [OSp ex_x; OSp ex_y]) [2; 3] /\
   shape_ok [2; 3] /\ In [Some true; Some false] (masks Z [OSp ex_x; OSp ex_y]) /\
-  func_coords_data Z Z.eqb 0 ex_add [OSp ex_x; OSp ex_y] [2; 3] 1 [Some true; Some false] =
+  func_coords_data Z Z.eqb 0 ex_add argsort [OSp ex_x; OSp ex_y] [2; 3] 1 [Some true; Some false] =
   Ok (Some [([0; 0], 6); ([0; 2], 8)]).
 Proof.
   split; [constructor; [apply ex_ok; reflexivity|constructor; [apply ex_ok; reflexivity|constructor]]|].
@@ -1528,3 +1556,82 @@ Proof. intros H. rewrite !astype_object_spec_proof. simpl. rewrite andb_false_r.
 Example astype_copy_fresh_nonvacuous :
   astype_object 1 2 true true = 2%nat /\ astype_object 1 2 true false = 1%nat /\ astype_object 1 2 false false = 2%nat.
 Proof. repeat split. Qed.
+
+(* ================================================================== the tie order of np.argsort is unobservable;
+   the written-out same-shape binary model is an instance of the general one *)
+
+Section Irrelevance.
+  Variable V : Type.
+  Variable veqb : V -> V -> bool.
+  Variable vzero : V.
+  Variable f : list V -> V.
+  Hypothesis veqb_eq : forall a b, veqb a b = true <-> a = b.
+
+  Theorem elemwise_sort_irrelevant_proof (s1 s2 : list Z -> list nat) (args0 : list (operand V)) :
+    is_argsort s1 -> is_argsort s2 -> Forall (op_ok V) args0 ->
+    elemwise V veqb vzero f s1 args0 = elemwise V veqb vzero f s2 args0.
+  Proof.
+    intros O1 O2 Hok0. unfold elemwise. destruct (negb (existsb (is_sparse V) args0)); [reflexivity|].
+    set (args := map (preprocess V) args0).
+    assert (Hok : Forall (op_ok V) args).
+    { unfold args. apply Forall_forall. intros a Ha. apply in_map_iff in Ha. destruct Ha as [a0 [<- Ha0]].
+      apply preprocess_ok. rewrite Forall_forall in Hok0. auto. }
+    fold (nd_shapes V args). pose proof (nary_sound (map (op_shape V) args)) as Hs.
+    destruct (nary_broadcast_shape (map (op_shape V) args)) as [sh|e]; [|reflexivity].
+    destruct (nary_sub _ _ (nd_shapes V args) Hs (nd_shapes_incl V args)) as [nd [En [Hreln HBn]]].
+    rewrite En.
+    assert (Hshok : shape_ok sh).
+    { eapply rel_shape_ok; [|exact Hs].
+      apply Forall_forall. intros s0 Hs0. apply in_map_iff in Hs0. destruct Hs0 as [a [<- Ha]].
+      rewrite Forall_forall in Hok. specialize (Hok a Ha). destruct a; simpl in *; tauto. }
+    pose proof (get_fill_value_spec V veqb vzero f veqb_eq args sh nd) as Hg.
+    destruct (get_fill_value V veqb vzero f args sh nd) as [fill| |]; try reflexivity.
+    destruct (existsb (Z.eqb 0) sh); [reflexivity|].
+    destruct (sparse_branch V veqb vzero s1 O1 f veqb_eq args sh nd fill Hok Hs Hshok Hreln HBn Hg)
+      as [p1 [E1 [r1 [C1 [A1 [A2 [A3 [A4 A5]]]]]]]].
+    destruct (sparse_branch V veqb vzero s2 O2 f veqb_eq args sh nd fill Hok Hs Hshok Hreln HBn Hg)
+      as [p2 [E2 [r2 [C2 [B1 [B2 [B3 [B4 B5]]]]]]]].
+    rewrite E1, E2, C1, C2. f_equal.
+    apply (canonical_unique V veqb veqb_eq); auto; try congruence.
+    intros ix Hix. rewrite A1 in Hix. rewrite A5, B5 by exact Hix. reflexivity.
+  Qed.
+
+  Lemma rel_pair_same s : np_broadcast_rel [s; s] s.
+  Proof.
+    split; [simpl; lia|]. split.
+    - intros s0 k [<-|[<-|[]]]; auto.
+    - intros k Hk. exists s. simpl. auto.
+  Qed.
+
+  (* (1) for same-shape operands of at least one axis the general model computes exactly elemwise2 *)
+  Theorem elemwise2_is_elemwise_proof (srt : list Z -> list nat) (a b : coo V) :
+    is_argsort srt -> canonical V a -> canonical V b -> shape_ok (c_shape a) ->
+    c_shape a = c_shape b -> c_shape a <> [] ->
+    elemwise V veqb vzero f srt [OSp a; OSp b] = OutSparse (elemwise2 V veqb vzero f a b).
+  Proof.
+    intros Osrt Ha Hb Hoka Hsh Hne.
+    assert (Hok : Forall (op_ok V) [OSp a; OSp b]).
+    { constructor; [split; assumption|]. constructor; [split; [assumption|rewrite <- Hsh; assumption]|constructor]. }
+    pose proof (elemwise_den_proof V veqb vzero srt Osrt f veqb_eq [OSp a; OSp b] Hok eq_refl) as Hpost.
+    assert (Hpre : map (preprocess V) [OSp a; OSp b] = [OSp a; OSp b]).
+    { simpl. rewrite <- Hsh. destruct (c_shape a); [congruence|reflexivity]. }
+    assert (Hrel : np_broadcast_rel (map (op_shape V) [OSp a; OSp b]) (c_shape a)).
+    { simpl. rewrite <- Hsh. apply rel_pair_same. }
+    destruct (elemwise2_den_proof V veqb vzero f veqb_eq a b Ha Hb Hsh) as [E1 [E2 [E3 [E4 E5]]]].
+    unfold elemwise_post in Hpost. rewrite Hpre in Hpost. simpl nd_shapes in Hpost.
+    destruct (elemwise V veqb vzero f srt [OSp a; OSp b]) as [r|d|e].
+    - destruct Hpost as [sh [nd [R1 [R2 [_ [P1 [P2 [P3 [P4 P5]]]]]]]]].
+      assert (Esh : sh = c_shape a) by (eapply rel_unique; eauto). rewrite Esh in *. clear Esh.
+      assert (nd = []) by (destruct R2 as [L _]; destruct nd; [reflexivity|simpl in L; lia]). subst nd.
+      f_equal. apply (canonical_unique V veqb veqb_eq); auto; try congruence.
+      + rewrite E2. rewrite (P2 [] I). reflexivity.
+      + intros ix Hix. rewrite P1 in Hix. rewrite P5, E5 by exact Hix.
+        unfold F. simpl. rewrite <- Hsh. rewrite (bcast_idx_id (c_shape a) ix Hix). reflexivity.
+    - exfalso. destruct Hpost as [sh [_ [R2 [Hnc _]]]].
+      assert (sh = []) by (destruct R2 as [L _]; destruct sh; [reflexivity|simpl in L; lia]). subst sh.
+      apply Hnc. exists (fill_at V vzero f [OSp a; OSp b] []). intros q0 Hq0. destruct q0; [reflexivity|simpl in Hq0; tauto].
+    - exfalso. destruct Hpost as [_ [Hno|[sh [nd [_ [R2 [Hnc _]]]]]]]; [apply Hno; eauto|].
+      assert (nd = []) by (destruct R2 as [L _]; destruct nd; [reflexivity|simpl in L; lia]). subst nd.
+      apply Hnc. exists (fill_at V vzero f [OSp a; OSp b] []). intros q0 Hq0. destruct q0; [reflexivity|simpl in Hq0; tauto].
+  Qed.
+End Irrelevance.
